@@ -186,6 +186,15 @@ def enumerate_rewrites(schema, doc):
                         n.args = [(a, ("null",) if a == an else v) for a, v in n.args]
                     add("value-of-correct-type", site + "/null-for-non-null-argument", null_req)
                 if is_nn(ad.type) and ad.default is ABSENT and an in given:
+                    reach0 = _reaching_ops(doc, owner)
+                    if reach0:
+                        def null_default_var(d2, idx=idx, an=an, ad=ad, reach0=reach0):
+                            # a nullable variable whose default is the literal null does not make it usable at a non-null position
+                            n = node_at(d2, idx)[0]
+                            n.args = [(a, ("var", "nullDefaultVar") if a == an else v) for a, v in n.args]
+                            for oi in reach0:
+                                d2.operations()[oi].vardefs.append(("nullDefaultVar", ad.type[1], ("null",)))
+                        add("variable-allowed-in-position", site + "/null-default", null_default_var)
                     def rm_req(d2, idx=idx, an=an):
                         n = node_at(d2, idx)[0]
                         n.args = [(a, v) for a, v in n.args if a != an]
@@ -371,6 +380,16 @@ def enumerate_rewrites(schema, doc):
             add("fragment-acyclic", "self", self_cycle)
             add("fragment-acyclic", "mutual", mutual_cycle)
             add("fragment-acyclic", "through-inline-fragment", inline_cycle)
+    # an EXISTING (legally used) fragment spread a second time under a parent type it can never apply to
+    for fr in frs:
+        poss = set(schema.possible(fr.cond)) if fr.cond in schema.types else set()
+        sites_bad = [i2 for i2, (sn, parent, owner, ctx, container, ci) in enumerate(nodes)
+                     if schema.kind_of(parent) == "OBJECT" and parent not in poss and owner is not fr and parent not in schema.roots()]
+        for pick in ([sites_bad[0], sites_bad[-1]] if len(sites_bad) > 1 else sites_bad):
+            def reuse_impossible(d2, pick=pick, name=fr.name):
+                n = node_at(d2, pick)
+                n[4].sels.insert(n[5], Spread(name))
+            add("fragment-spread-possible", "existing-fragment-second-parent", reuse_impossible)
     # a cycle through a nested field: fragment on T { f { ...same } } where T.f returns T
     done_nested = False
     for idx, (sn, parent, owner, ctx, container, ci) in enumerate(nodes):
